@@ -5,6 +5,7 @@ import (
 	"fmt"
 	"os"
 	"strconv"
+	"time"
 )
 
 type config struct {
@@ -15,6 +16,8 @@ type config struct {
 }
 
 var props = map[string]func(cfg config){}
+
+var processZone string
 
 func main() {
 	if len(os.Args) < 2 {
@@ -32,6 +35,10 @@ func main() {
 		s = 1
 	}
 	cfg.seed = s
+	// The library's answers may not depend on the process time zone: every run uses another one (the models know none).
+	zones := []*time.Location{time.FixedZone("+05:45", 5*3600+45*60), time.FixedZone("-09:30", -(9*3600 + 30*60)), time.UTC, time.FixedZone("+13:00", 13*3600)}
+	time.Local = zones[s%4]
+	processZone = time.Local.String()
 	f, ok := props[cfg.prop]
 	if !ok {
 		fmt.Fprintln(os.Stderr, "fpharness: unknown property", cfg.prop)
